@@ -17,7 +17,7 @@ from buidl.timelock import Locktime, Sequence
 from buidl.tx import Tx, TxIn, TxOut
 from buidl.witness import Witness
 
-from ref import secp, sighash as rs, txmodel as tm
+from ref import secp, sighash as rs, stdverify, txmodel as tm
 from sim.core import SimDeadlock, plan_rng
 
 WORLD = "sighash"
@@ -64,7 +64,7 @@ def fail(prop, oracle, detail, msg):
 
 def nontrivial(res):
     p = res["probes"]
-    return (p.get("query_after_edit", 0) > 0) or (p.get("verify_after_sign", 0) > 0)
+    return (p.get("query_after_edit", 0) > 0) or (p.get("verify_after_sign", 0) > 0) or (p.get("transmissions", 0) > 0)
 
 
 def priv(k):
@@ -699,6 +699,245 @@ class World:
             if v2 != v:
                 fail("C06", "H3", f"verdict_depends_on_history_{inp.kind}", f"verify_input({idx}) is {v} on the history object and {v2} on a freshly re-parsed copy")
 
+    # ---------------------------------------------------------------- transmission with in-flight tampering (C06 catalogue as faults)
+    def op_transmit(self, st):
+        """The (signed) transaction is serialised, possibly tampered with in flight, parsed by a receiver that knows the spent
+        outputs, and verified there. Oracle: receiver says valid => the reference finds the spend authorised (T1); an untampered
+        spend the reference finds authorised must be reported valid (T2)."""
+        tr = self.tr
+        if not self.inps:
+            return
+        idx = st["i"] % len(self.inps)
+        inp = self.inps[idx]
+        try:
+            raw = self.tx.serialize()
+        except Exception:
+            return
+        mtx, _ = tm.parse_tx(raw, strict=False)
+        mi = mtx["ins"][idx]
+        mut = st.get("mut")
+        label = "clean"
+        if mut:
+            label = self.tamper(mi, inp, mut, idx, mtx)
+            if label is None:
+                return
+            tr.fault("tamper_" + label)
+        raw2 = tm.ser_tx(mtx, witness=True)
+        try:
+            rx = Tx.parse(BytesIO(raw2), network="mainnet")
+            for b, ii in zip(rx.tx_ins, self.inps):
+                b._value = ii.amount
+                b._script_pubkey = lib_script(ii.spk, ScriptPubKey)
+            lib = bool(rx.verify_input(idx))
+            lib_note = ""
+        except SimDeadlock:
+            raise
+        except Exception as e:
+            lib = False
+            lib_note = type(e).__name__
+        ref, why = stdverify.verify_input(mtx, idx, self.spent())
+        tr.oracle("T1")
+        tr.probe("transmissions")
+        tr.probe(f"transmit_lib{int(lib)}_ref{int(ref)}")
+        tr.ev("net", "transmit", f"{idx}|{inp.kind}|{label}|lib={lib}{('/' + lib_note) if lib_note else ''}|ref={ref}")
+        tr.state("tx", inp.kind, label, lib, ref)
+        if lib and not ref:
+            fail("C06", "T1", f"accepted_unauthorised_{label}_{inp.kind}", f"receiver's verify_input({idx}) is True for a {inp.kind} spend after in-flight change '{label}', but the reference finds it not authorised ({why})")
+        if not mut and ref and not lib:
+            fail("C06", "T2", f"authorised_rejected_{inp.kind}", f"untampered {inp.kind} spend is authorised per the reference but the receiver's verify_input({idx}) is False {lib_note}")
+
+    def tamper(self, mi, inp, mut, idx, mtx):
+        k = mut["kind"]
+        a, b = mut.get("a", 0), mut.get("b", 0)
+        kind = inp.kind
+        ss_items = stdverify.parse_pushes(mi["script_sig"])
+        wit = mi["witness"]
+
+        def enc(items):
+            return b"".join(b"\x00" if it == b"" else tm.push(it) for it in items)
+
+        # where do the signatures live?
+        if kind in ("p2pkh",):
+            sig_slots = [("ss", 0)]
+        elif kind == "p2sh_ms":
+            sig_slots = [("ss", j) for j in range(1, len(ss_items or []) - 1)]
+        elif kind in ("p2wpkh", "p2sh_p2wpkh"):
+            sig_slots = [("w", 0)] if len(wit) >= 1 else []
+        elif kind in ("p2wsh_ms", "p2sh_p2wsh_ms"):
+            sig_slots = [("w", j) for j in range(1, len(wit) - 1)]
+        elif kind == "p2tr_key":
+            sig_slots = [("w", 0)] if wit else []
+        else:
+            n_sig = len(inp.keys)
+            sig_slots = [("w", j) for j in range(min(n_sig, len(wit))) if wit[j]]
+
+        def get(slot):
+            return ss_items[slot[1]] if slot[0] == "ss" else wit[slot[1]]
+
+        def put(slot, v):
+            if slot[0] == "ss":
+                ss_items[slot[1]] = v
+                mi["script_sig"] = enc(ss_items)
+            else:
+                wit[slot[1]] = v
+
+        if k == "flip":
+            region = mut.get("region", "w")
+            if region == "ss" and mi["script_sig"]:
+                bb = bytearray(mi["script_sig"])
+                bb[a % len(bb)] ^= 1 << (b % 8)
+                mi["script_sig"] = bytes(bb)
+                return "flip_scriptsig"
+            nz = [j for j, w in enumerate(wit) if w]
+            if not nz:
+                return None
+            j = nz[a % len(nz)]
+            bb = bytearray(wit[j])
+            bb[(a // 7) % len(bb)] ^= 1 << (b % 8)
+            wit[j] = bytes(bb)
+            return "flip_witness"
+        if k == "retag":
+            if not sig_slots:
+                return None
+            slot = sig_slots[a % len(sig_slots)]
+            sig = get(slot)
+            if not sig:
+                return None
+            if kind in ("p2tr_key", "p2tr_script"):
+                types = [1, 2, 3, 0x81, 0x82, 0x83]
+                cur = sig[64] if len(sig) == 65 else 0
+                new = [t for t in types if t != cur][b % 5]
+                put(slot, sig[:64] + bytes([new]))
+            else:
+                types = [1, 2, 3, 0x81, 0x82, 0x83]
+                new = [t for t in types if t != sig[-1]][b % 5]
+                put(slot, sig[:-1] + bytes([new]))
+            return "retag_sighash" + ("_not_last" if slot != sig_slots[-1] else "_last")
+        if k == "drop_sig":
+            if not sig_slots:
+                return None
+            slot = sig_slots[a % len(sig_slots)]
+            if slot[0] == "ss":
+                ss_items.pop(slot[1])
+                mi["script_sig"] = enc(ss_items)
+            elif kind == "p2tr_script":
+                wit[slot[1]] = b""
+            else:
+                wit.pop(slot[1])
+            return "drop_sig"
+        if k == "swap_sigs":
+            if len(sig_slots) < 2:
+                return None
+            s1, s2 = sig_slots[a % len(sig_slots)], sig_slots[(a + 1) % len(sig_slots)]
+            v1, v2 = get(s1), get(s2)
+            if v1 == v2:
+                return None
+            put(s1, v2)
+            put(s2, v1)
+            return "swap_sigs"
+        if k == "dup_sig":
+            if len(sig_slots) < 2:
+                return None
+            s1, s2 = sig_slots[a % len(sig_slots)], sig_slots[(a + 1) % len(sig_slots)]
+            if get(s1) == get(s2):
+                return None
+            put(s2, get(s1))
+            return "dup_sig"
+        if k == "foreign_sig":
+            if not sig_slots:
+                return None
+            slot = sig_slots[a % len(sig_slots)]
+            outsider = [x for x in range(8) if x not in inp.keys][b % (8 - len(set(inp.keys)))]
+            algo = inp.algo()
+            if algo == "bip341":
+                ht = 0
+                d = self.ref_digest(idx, algo, ht)
+                if d is None:
+                    return None
+                sec_ = SECRETS[outsider]
+                put(slot, secp.schnorr_sign(sec_, d))
+            else:
+                d = self.ref_digest(idx, algo, 1)
+                r_, s_ = secp.ecdsa_sign(SECRETS[outsider], int.from_bytes(d, "big"))
+
+                def der_int(v):
+                    bb = v.to_bytes(33, "big").lstrip(b"\x00")
+                    if bb[0] & 0x80:
+                        bb = b"\x00" + bb
+                    return b"\x02" + bytes([len(bb)]) + bb
+
+                body = der_int(r_) + der_int(s_)
+                put(slot, b"\x30" + bytes([len(body)]) + body + b"\x01")
+            return "foreign_key_sig"
+        if k == "cb_parity":
+            if kind != "p2tr_script" or len(wit) < 2:
+                return None
+            pos = -2 if (len(wit) >= 3 and wit[-1][:1] == b"\x50") else -1
+            cbb = bytearray(wit[pos])
+            cbb[0] ^= 1
+            wit[pos] = bytes(cbb)
+            return "control_block_parity"
+        if k == "cb_flip":
+            if kind != "p2tr_script" or len(wit) < 2:
+                return None
+            pos = -2 if (len(wit) >= 3 and wit[-1][:1] == b"\x50") else -1
+            cbb = bytearray(wit[pos])
+            cbb[1 + a % (len(cbb) - 1)] ^= 1 << (b % 8)
+            wit[pos] = bytes(cbb)
+            return "control_block_flip"
+        if k == "annex_only":
+            if kind not in ("p2tr_key", "p2tr_script"):
+                return None
+            mi["witness"] = [b"\x50" + bytes([a % 256]) * (b % 70)]
+            return "annex_only_witness"
+        if k == "empty_witness":
+            if not wit:
+                return None
+            mi["witness"] = []
+            return "empty_witness"
+        if k == "truncate_witness":
+            if len(wit) < 2:
+                return None
+            mi["witness"] = wit[: 1 + a % (len(wit) - 1)]
+            return "truncated_witness"
+        if k == "sigfree_scriptsig":
+            # signature-free scriptSig with extra pushes/opcodes around the redeem script (or in front of a witness program)
+            extra = [b"\x01", b"", b"\x01\x02\x03", bytes(20)][a % 4]
+            if kind in ("p2sh_ms",):
+                mi["script_sig"] = enc([extra] * (1 + b % 3) + [inp.redeem])
+                return "sigfree_scriptsig_p2sh"
+            if kind in ("p2sh_p2wpkh", "p2sh_p2wsh_ms"):
+                mi["script_sig"] = enc([extra, inp.redeem])
+                if b % 2:
+                    mi["witness"] = []
+                return "extra_push_before_redeem_script"
+            if kind in ("p2wpkh", "p2wsh_ms", "p2tr_key", "p2tr_script"):
+                mi["script_sig"] = enc([extra])
+                if b % 2:
+                    mi["witness"] = []
+                return "nonempty_scriptsig_on_witness_output"
+            if kind == "p2pkh":
+                mi["script_sig"] = enc([extra, ss_items[1] if ss_items and len(ss_items) > 1 else extra])
+                return "sigfree_scriptsig_p2pkh"
+            return None
+        if k == "wrong_script":
+            # another (well-formed) redeem/witness script in place of the committed one
+            other = tm.multisig_script(1, [secp.sec(pub((inp.keys[0] + 1 + a) % 8))])
+            if kind == "p2sh_ms" and ss_items:
+                ss_items[-1] = other
+                mi["script_sig"] = enc(ss_items)
+                return "foreign_redeem_script"
+            if kind in ("p2wsh_ms", "p2sh_p2wsh_ms") and wit:
+                wit[-1] = other
+                return "foreign_witness_script"
+            if kind == "p2tr_script" and len(wit) >= 2:
+                pos = -3 if (len(wit) >= 3 and wit[-1][:1] == b"\x50") else -2
+                wit[pos] = tm.push(secp.xonly(pub((inp.keys[0] + 1 + a) % 8))) + b"\xac"
+                return "foreign_leaf_script"
+            return None
+        raise ValueError(k)
+
+
 
 def execute(plan, prop, trace):
     _TR[0] = trace
@@ -719,6 +958,8 @@ def execute(plan, prop, trace):
             w.op_sign(st)
         elif op == "verify":
             w.op_verify(st)
+        elif op == "transmit":
+            w.op_transmit(st)
         else:
             raise ValueError(op)
     return {"inputs": [i.kind + ("+annex" if i.annex is not None else "") for i in w.inps], "outputs": len(w.model["outs"]),
@@ -838,7 +1079,61 @@ def generate(ch, tier, prop):
             if vbudget:
                 vbudget -= 1
                 steps.append({"op": "verify", "i": i, "reps": 1})
+        # transmissions with in-flight tampering: placed right after sign operations so that the spend is a valid one
+        TAMPER = ["flip", "flip", "retag", "retag", "drop_sig", "swap_sigs", "dup_sig", "foreign_sig", "cb_parity", "cb_flip", "annex_only", "empty_witness", "truncate_witness", "sigfree_scriptsig", "sigfree_scriptsig", "wrong_script"]
+        out = []
+        tbudget = ch.randrange(1, 5)
+        for st in steps:
+            out.append(st)
+            if st["op"] == "sign" and tbudget and ch.chance(0.7):
+                tbudget -= 1
+                t = {"op": "transmit", "i": st["i"]}
+                if not fault_free and ch.chance(0.8):
+                    tkind = plan["inputs"][st["i"] % len(plan["inputs"])]["kind"]
+                    tk = ch.choice(TAMPER_BY_KIND[tkind]) if ch.chance(0.8) else ch.choice(TAMPER)
+                    t["mut"] = {"kind": "flip" if tk == "flip_ss" else tk, "a": ch.randrange(10000), "b": ch.randrange(256), "region": "ss" if tk == "flip_ss" else ch.choice(["w", "w", "ss"])}
+                out.append(t)
+        plan["steps"] = out
     return plan
+
+
+TAMPER_BY_KIND = {
+    "p2pkh": ["flip_ss", "retag", "foreign_sig", "sigfree_scriptsig"],
+    "p2sh_ms": ["flip_ss", "retag", "drop_sig", "swap_sigs", "dup_sig", "foreign_sig", "sigfree_scriptsig", "wrong_script"],
+    "p2wpkh": ["flip", "retag", "foreign_sig", "empty_witness", "truncate_witness", "sigfree_scriptsig"],
+    "p2sh_p2wpkh": ["flip", "flip_ss", "retag", "foreign_sig", "empty_witness", "sigfree_scriptsig"],
+    "p2wsh_ms": ["flip", "retag", "drop_sig", "swap_sigs", "dup_sig", "foreign_sig", "empty_witness", "truncate_witness", "sigfree_scriptsig", "wrong_script"],
+    "p2sh_p2wsh_ms": ["flip", "flip_ss", "retag", "drop_sig", "swap_sigs", "dup_sig", "foreign_sig", "sigfree_scriptsig", "wrong_script"],
+    "p2tr_key": ["flip", "retag", "foreign_sig", "annex_only", "empty_witness", "sigfree_scriptsig"],
+    "p2tr_script": ["flip", "retag", "drop_sig", "swap_sigs", "dup_sig", "foreign_sig", "cb_parity", "cb_flip", "annex_only", "truncate_witness", "sigfree_scriptsig", "wrong_script"],
+}
+
+
+def enumerate_plans(tier, prop, seed):
+    """C06: every signable output type x every applicable in-flight tampering (the property's catalogue as faults)."""
+    if prop != "C06":
+        return
+    r = plan_rng(seed, "enum-c06")
+    reps = 1 if tier == "quick" else 6
+    for kind in KINDS:
+        for tk in ["none"] + TAMPER_BY_KIND[kind]:
+            for rep in range(reps):
+                n = 1 if kind in ("p2pkh", "p2wpkh", "p2sh_p2wpkh", "p2tr_key") else r.choice([2, 3])
+                spec = {"kind": kind, "txid": "%064x" % r.getrandbits(256), "vout": r.randrange(3), "sequence": 0xFFFFFFFE, "amount": 100000 + r.randrange(1000), "keys": r.sample(range(8), n)}
+                if n > 1:
+                    spec["m"] = 2
+                    if kind == "p2tr_script":
+                        spec["internal"] = r.randrange(8)
+                elif kind == "p2tr_script":
+                    spec["m"] = 1
+                    spec["internal"] = r.randrange(8)
+                if kind in ("p2tr_key", "p2tr_script") and (rep % 2 == 1 or (tier == "quick" and r.random() < 0.3)):
+                    spec["annex"] = "50" + "%02x" % r.randrange(256)
+                t = {"op": "transmit", "i": 0}
+                if tk != "none":
+                    t["mut"] = {"kind": "flip" if tk == "flip_ss" else tk, "a": r.randrange(10000), "b": r.randrange(256), "region": "ss" if tk == "flip_ss" else "w"}
+                yield {"version": 2, "locktime": 0, "inputs": [spec], "outputs": [{"amount": 90000, "spk": tm.spk_p2wpkh(bytes(20)).hex()}, {"amount": 5000, "spk": tm.spk_p2pkh(bytes(20)).hex()}],
+                       "steps": [{"op": "sign", "i": 0, "ht": r.choice([0, 1, 3, 0x81]), "pick": r.randrange(1000)}, t], "enum": "catalogue"}
 
 
 def shrink(plan):
